@@ -39,6 +39,9 @@ CLAIMED = {
  "C16": dict(text="Static analysis: the deserializer's table (op_code = 0..=255, exhaustive) and the serializer's table (every Op variant x Var x move_h x fast/slow path, plus the u32_var/i32_var offset tables) are extracted from MIR by finite-domain specialisation and compared cell by cell: variant, constants, operand widths, signedness and field order; opcodes 250-255 are rejected. Axis partition of w/x/y/z agrees across Values::update and VarRemover, which passes all other operations through. Reader totality is decided by enumerating and discharging every potential-panic site of deserialize and its callees. Not decided: value-level boundary arithmetic of the 3-byte signed form, 'consumes every byte', position preservation as a value statement.",
              note=TRUST+"DVI opcode semantics are taken from the reader/writer pair themselves (agreement), plus DVI's fnt_def/string layouts transcribed by hand.",
              tech="decision-table extraction (abstract interpretation of MIR over finite key domains) + table agreement + potential-panic-site discharge"),
+ "C18": dict(text="Static analysis (partial claim). Decided: the ds<->AST converters of the Box language cover every field of every ds struct and every variant of every ds/AST enum in both directions (a field dropped on either side must be in an audited table tied to the property's stated exclusions: kern/glue kinds, vbox glue setting, Whatsit), and explicit panic / unwrap-family sites reachable from parse_*, format and the printers are discharged or reproduced findings. NOT decided: that print and parse are inverse on values, formatter idempotence, bounds/arithmetic in the lexer beyond the unwrap family.",
+             note=TRUST+"Keyword agreement of printer and parser holds by construction (one functions! macro table defines both).",
+             tech="field/variant coverage analysis over MIR of the converter impls + potential-panic-site discharge"),
  "C20": dict(text="Static analysis. The concurrent clause (tags pairwise distinct under every schedule; a static tag resolves to one value) is decided by lock discipline in Tag::new — one Mutex guard, value read and checked write-back under it, strictly monotone — plus who-may rules (the counter, Tag construction, forging impls, StaticTag's OnceLock::get_or_init). For the containers only the API surface is decided (no mutable bypass: who-may-write + signatures, and compile_fail witnesses in the thorough tier). Model equivalence of the scoped map, interner correctness under hash collisions and KMP match positions are behavioural and NOT decided.",
              note=TRUST+"Mutual exclusion and OnceLock's once-semantics are std guarantees (trusted).",
              tech="lock-discipline / def-use rule on MIR + who-may-access rules + compile_fail witnesses"),
